@@ -2,6 +2,8 @@
 From Dnp3V Require Import Link.Reader Link.CrcProofs Link.ParserProofs Link.ReaderProofs.
 Open Scope N_scope.
 
+(* every error pattern of 1..3 flipped bits in a block (1..16 data bytes followed by the CRC the
+   code computes for them) makes the receiver's block check fail *)
 Theorem C06_crc_detects_le3 : forall data ps,
   (1 <= length data <= 16)%nat -> bytes_ok data ->
   NoDup ps -> (1 <= length ps <= 3)%nat ->
@@ -9,3 +11,31 @@ Theorem C06_crc_detects_le3 : forall data ps,
   block_ok (flip ps (data ++ crc_le data)) = false.
 Proof. exact crc_detects_le3. Qed.
 Print Assumptions C06_crc_detects_le3.
+
+(* the same for the ten header bytes (05 64 + six fields + CRC) *)
+Theorem C06_header_crc_detects_le3 : forall fields ps,
+  length fields = 6%nat -> bytes_ok fields ->
+  NoDup ps -> (1 <= length ps <= 3)%nat -> Forall (fun p => (p < 80)%nat) ps ->
+  block_ok (flip ps ((5 :: 100 :: fields) ++ crc_le (5 :: 100 :: fields))) = false.
+Proof. exact header_crc_detects_le3. Qed.
+Print Assumptions C06_header_crc_detects_le3.
+
+(* the seed constant used by the frame formatter is the CRC register after 05 64 *)
+Theorem C06_crc_0564_seed : forall bs, calc_crc_with_0564 bs = calc_crc (5 :: 100 :: bs).
+Proof. exact calc_crc_with_0564_eq. Qed.
+Print Assumptions C06_crc_0564_seed.
+
+(* any frame the library formats (payload 0..250, any control byte, any addresses) is parsed back
+   to exactly its control field, addresses and payload, consuming exactly the frame *)
+Theorem C06_frame_round_trip : forall ctrl dest src payload rest,
+  header_ok ctrl dest src -> bytes_ok payload -> (length payload <= 250)%nat ->
+  parse_impl FindSync1 (format_frame (mk_header ctrl dest src) payload ++ rest)
+  = (FindSync1, rest, PFrame (mk_header ctrl dest src) payload).
+Proof. exact frame_round_trip. Qed.
+Print Assumptions C06_frame_round_trip.
+
+(* non-vacuity: a concrete frame (RESET_LINK of the repository's test data) *)
+Example C06_round_trip_instance :
+  format_frame (mk_header 192 1 1024) [] = [5; 100; 5; 192; 1; 0; 0; 4; 233; 33] /\
+  header_ok 192 1 1024.
+Proof. split; [vm_compute; reflexivity|unfold header_ok; lia]. Qed.
